@@ -109,6 +109,7 @@ func main() {
 	runValues(f, res, drv, mons)
 	runPull(f, res, drv, mons)
 	runParked(f, res, drv, mons)
+	runFree(f, res, drv, mons)
 	runLossy(f, res, mons)
 	delete(res.Extra, "ieee_tie")
 	if err := res.Write(f.Out); err != nil {
@@ -188,8 +189,11 @@ func replay(f lib.Flags) int {
 		pc.monitorParked(mons, po)
 		out = fmt.Sprintf("%d window(s) err=%q", len(po.windows), po.err)
 	default:
-		fmt.Println("replay: unknown op", in["op"])
-		return 2
+		var ok bool
+		if out, ok = replayFree(fmt.Sprint(in["op"]), in, mons); !ok {
+			fmt.Println("replay: unknown op", in["op"])
+			return 2
+		}
 	}
 	fmt.Printf("replay %v -> code=%s\n", in["op"], out)
 	failed := false
